@@ -12,26 +12,26 @@ import props  # noqa: E402
 VERIF = os.path.dirname(os.path.dirname(os.path.abspath(__file__)))
 
 LEVEL = {
- "C01": ("theorems: the attribute tokenizer inverts the rendering of any clean attribute list under arbitrary padding, unquote inverts quote, the regenerated dispatch chain classifies every tag line by its own prefix, line splitting is insensitive to CRLF/padding; correspondence: impl = extracted model = generator's RFC-level expectation on structured playlists; the end-to-end statement parse(render a) = sem a is kept as an open statement", "6.1"),
- "C02": ("theorems of C01's lexical layers apply to master tags (shared tokenizer/dispatch); enum tables regenerated from source and proved injective; correspondence against an independent expectation over structured master playlists", "6.2"),
- "C03": ("theorems on the writer/reader key-state duality at item level and value round trips; correspondence + direct oracle (dump and text fixed point) over exhaustive key histories and random playlists", "6.3"),
- "C04": ("theorems: master writer has no state; value round trips (integers, enums); correspondence + direct oracle over structured master playlists", "6.4"),
- "C05": ("theorem: no entry point of the model (media parser with any builder, master parser, every tag parser) yields Panic for any string; set_start reached only with start<=end; tokenizer progress; correspondence on returned/panicked over near-valid and random inputs", "6.5"),
- "C06": ("theorem: the parser's key list after any history is exactly the RFC 8216 4.3.2.4 keys in effect, one per format, in tag order; segment/map snapshots; correspondence + independent oracle, exhaustive to a bound", "6.6"),
- "C07": ("theorems: numbers = media sequence + position for every accepted item list, IV rule, explicit IV verbatim, 128-bit big-endian round trip, writer strips derived IVs; correspondence + oracle", "6.7"),
- "C08": ("theorems: validation accepts iff the chain resolves; completed ranges equal the resolved ones; set_start never panics; correspondence + oracle incl. exhaustive chains", "6.8"),
- "C09": ("theorems: rounding is nearest-second-halves-up; validation iff rule; no accepted value holds a longer segment; correspondence on text and builder paths at every boundary", "6.9"),
- "C10": ("theorems: version line written iff required version != 1 and carries it; required version is the maximum of the per-feature versions read from the regenerated constants, hence >= every section-7 feature minimum; correspondence + independent text scanner", "6.10"),
- "C11": ("theorems: the parser's key container is order-free of any hash seed (ordered list), and the writer's output does not depend on the iteration order of its key set; runtime repetition across threads and processes in the harness (partial: schedules cannot be exhibited by the model)", "6.11"),
- "C12": ("theorems on arbitrary text: CRLF, line padding, blank lines, comment items, redundant version tags and unknown tags do not change the parse result (beyond the unknown list); correspondence + oracle over re-rendered and transformed texts", "6.12"),
- "C13": ("theorem: validation accepts iff the playlist is consistent (groups defined, CLOSED-CAPTIONS=NONE exclusive in either order, session data unique); rendition lookup = referenced renditions except the stated known class; correspondence exhaustive over small configurations", "6.13"),
- "C14": ("theorems: per-tag acceptance equals the attribute rules over all attribute lists for the tags modelled; correspondence exhaustive over presence subsets for text and builders", "6.14"),
- "C15": ("theorem: for every string, not both parsers accept; accepted master texts contain no media item or bare URI, accepted media texts no master item and a TARGETDURATION item; foreign-tag tables regenerated from source; correspondence exhaustive over short line sequences", "6.15"),
- "C16": ("theorems: accepted extension keeps the common segments (numbers and content); appending lines appends items; a text cut after a segment tag or after EXT-X-STREAM-INF is rejected; correspondence + oracle over every prefix and slide", "6.16"),
- "C17": ("theorem over the regenerated table: every hand-written into_owned rebuilds each declared field from the field of the same name and variant; the three entry points are one function in the model; correspondence: ==, dump and text of x, clone, into_owned", "6.17"),
- "C18": ("theorems: integer text round trip for all N below 2^w, hex round trip, byte range / resolution / channels round trips, all enum tables injective (regenerated), quote/unquote; float round trips validated by correspondence and sweep (partial)", "6.18"),
- "C19": ("theorems: the modelled equality/ordering/hash of KeyFormatVersions (buffer + length) and of the float wrappers are coherent; derived impls are structural; every public type's derive list regenerated and checked; correspondence: laws on pairs/triples of the implementation", "6.19"),
- "C20": ("theorems: setters commute / last wins, built playlists gap-free with documented numbering, no builder call sequence panics, parser and builder share build(); correspondence: builder scripts vs rendered text", "6.20"),
+ "C01": ("theorems: tokenizer inverts any padded rendering, unquote/quote, dispatch by prefix, assembly of segments for all item lists, every well-formed value is the parse of its canonical text (C01_canonical_text) and of every other presentation reachable by the closure of the presentation changes (C01_styled_text); durations/floats enter as decidable hypotheses; correspondence: impl = extracted model = generator's RFC-level expectation on structured playlists", "3 (C01)"),
+ "C02": ('theorems: source order, shared lexical layer, enum tables regenerated from source, canonical text and every other presentation of a well-formed master value parse to it (C02_canonical_text, C02_styled_text); correspondence against an independent expectation over structured master playlists', "3 (C02)"),
+ "C03": ("theorems on the writer/reader key-state duality at item level and value round trips; correspondence + direct oracle (dump and text fixed point) over exhaustive key histories and random playlists", "3 (C03)"),
+ "C04": ("theorems: master writer has no state; value round trips (integers, enums); correspondence + direct oracle over structured master playlists", "3 (C04)"),
+ "C05": ('theorems: no entry point of the model yields Panic for any string; the index-level model of the tokenizer / unquote / tag (byte offsets, panicking slices, checked subtraction) refines the structural model for every string (C05_tokenizer_indices, C05_unquote_slice, C05_tag_split); tokenizer progress; correspondence on returned/panicked over near-valid, boundary and random inputs; stress inputs each in its own process of an unoptimised build; time scaling measured in the thorough tier (partial)', "3 (C05)"),
+ "C06": ("theorem: the parser's key list after any history is exactly the RFC 8216 4.3.2.4 keys in effect, one per format, in tag order; segment/map snapshots; correspondence + independent oracle, exhaustive to a bound", "3 (C06)"),
+ "C07": ('theorems: numbers = media sequence + position for every accepted item list, IV rule, explicit IV verbatim, 128-bit big-endian round trip, writer strips derived IVs; correspondence + oracle incl. the re-parse of the written text and builders that were used before / carry preset values', "3 (C07)"),
+ "C08": ("theorems: validation accepts iff the chain resolves; completed ranges equal the resolved ones; set_start never panics; correspondence + oracle incl. exhaustive chains", "3 (C08)"),
+ "C09": ('theorems: rounding is nearest-second-halves-up; validation iff rule; no accepted value holds a longer segment; correspondence on text and builder paths at every boundary, inside otherwise valid playlists of the full domain, with sub-second allowances, preset builders and durations set through setters', "3 (C09)"),
+ "C10": ('theorems: version line written iff required version != 1 and carries it; required version is the maximum of the per-feature versions read from the regenerated constants, hence >= every section-7 feature minimum; correspondence + independent text scan, also of values mutated through the public segment vector', "3 (C10)"),
+ "C11": ("theorems: the parser's key container is order-free of any hash seed (ordered list), and the writer's output does not depend on the iteration order of its key set; runtime repetition across threads and processes in the harness (partial: schedules cannot be exhibited by the model)", "3 (C11)"),
+ "C12": ("theorems on arbitrary text and as ONE theorem over whole playlists: the closure of the presentation changes on the cleaned lines (comments, redundant version tags, any spelling of a tag's attribute list for every attribute-list tag incl. METHOD=NONE keys and both variant tags, permuted free tags; CRLF / blank lines / padding do not change the cleaned lines) leaves the parse result unchanged (C12_restyle_media/master, C12_restyle_rules, C12_restyle_attribute_lines, C12_restyle_variant_lines); correspondence + oracle over re-rendered and transformed texts, foreign attribute names, and == of the parsed values", "3 (C12)"),
+ "C13": ('theorem: validation accepts iff the playlist is consistent (groups defined, CLOSED-CAPTIONS=NONE exclusive in either order, session data unique); rendition lookup = referenced renditions except the stated known class; correspondence exhaustive over small configurations, size sweeps, and MasterPlaylistBuilder call sequences', "3 (C13)"),
+ "C14": ("theorems: per-tag acceptance equals the attribute rules over all attribute lists for the tags modelled; correspondence exhaustive over presence subsets for text and builders", "3 (C14)"),
+ "C15": ("theorem: for every string, not both parsers accept; accepted master texts contain no media item or bare URI, accepted media texts no master item and a TARGETDURATION item; foreign-tag tables regenerated from source; correspondence exhaustive over short line sequences", "3 (C15)"),
+ "C16": ("theorems: accepted extension keeps the common segments (numbers and content); appending lines appends items; a text cut after a segment tag or after EXT-X-STREAM-INF is rejected; correspondence + oracle over every prefix and slide", "3 (C16)"),
+ "C17": ('theorem over the regenerated table: every hand-written into_owned rebuilds each declared field from the field of the same name and variant; the three entry points are one function in the model; correspondence: ==, dump and text of x, clone, into_owned for parsed values, for playlists built by builder call sequences and for values built through the public constructors', "3 (C17)"),
+ "C18": ('theorems: integer / hex / byte range / resolution / channels round trips, enum tables injective (regenerated), quote/unquote, every tag type written and read back through its own parser; float hypotheses decided on bounded decimal grids (C18_duration_ms_sweep, C18_frame_rate_sweep, C18_time_offset_sweep), the modelled rounding depends on the value only and fixes representable values (C18_rounding_by_value, C18_representable_exact); the unbounded float statements stay hypotheses (partial); correspondence with per-type expectations and API-built values', "3 (C18)"),
+ "C19": ("theorems: the modelled equality/ordering/hash of KeyFormatVersions (buffer + length) and of the float wrappers are coherent; derived impls are structural; every public type's derive list regenerated and checked; correspondence: laws on triples of the implementation incl. API-built values (Number IVs, KeyFormat::Other, stale buffers, built segments)", "3 (C19)"),
+ "C20": ("theorems: setters commute / last wins, built playlists gap-free with documented numbering, no builder call sequence panics (also with the vector's capacity in the model: C20_slots_never_panic, reserve-before-insert regenerated from the source), parser and builder share build(), rebuild / paths agree; correspondence: media and master builder scripts vs rendered text", "3 (C20)"),
 }
 
 NOTE = ("trusted: Coq 8.16.1 kernel (vm_compute, no native_compute); no axioms (Print Assumptions: closed under the global "
@@ -64,7 +64,7 @@ def main():
         "version": 1,
         "setup_cmd": "./check --setup",
         "hooks": {"guard": "none (no source hooks are needed: the harness uses the public API only)",
-                  "enable": "no flag; the harness crate depends on hls_m3u8 = { path = \"/repo\" } and is rebuilt by every check",
+                  "enable": "no flag; the harness crate depends on hls_m3u8 = { path = \"/repo\" } (the path follows HLS_REPO for background runs on a snapshot) and is rebuilt by every check",
                   "baseline_off_cmd": "cd /repo && cargo test --workspace --no-fail-fast --offline",
                   "source_commits": [], "add_only": True},
         "engines": [{"name": "coq-model+correspondence", "path": "/verif/check",
@@ -72,7 +72,7 @@ def main():
                      "kind_free_text": "Coq 8.16 development (coq/Model, coq/Spec, coq/Proofs, coq/Properties), translator tools/extract_tables.py, extracted OCaml model ocaml/driver, Rust harness harness/, orchestrator tools/*.py"}],
         "checks": claimed,
         "not_applicable": na,
-        "notes": "Genuine defects of the pinned tree were repaired by `fix:` commits in /repo and are listed in known_findings.json (status fixed); the remaining known findings print KNOWN-FINDING lines.",
+        "notes": "Genuine defects of the pinned tree were repaired by `fix:` commits in /repo and are listed in known_findings.json (status fixed, with a `fixed: property=<id> <commit> <what failed>` line each); the remaining known findings print KNOWN-FINDING lines.",
     }
     with open(os.path.join(VERIF, "MANIFEST.json"), "w") as f:
         json.dump(m, f, indent=1)
